@@ -368,6 +368,24 @@ def gen(rng, index, tier):
         return gen_pcstack(rng, index, tier)
     if index % 64 == 1:
         return gen_sigint(rng, index, tier, native=True)
+    if index % 16 == 7:
+        from sim import realprog
+        case, _labels = realprog.real_case(rng)
+        if case is None:
+            return None
+        m, obs = enginesim.pre_run(rng, case, cap=realprog.MAX_OPS)
+        if m is None:
+            return None
+        calls = [e for e in obs['log'] if e[0] in ('w', 'r')]
+        if not calls:
+            return None
+        n = len(calls)
+        idxs = list(range(n)) if n <= 24 else sorted(rng.sample(range(n), 24))
+        case['plans'] = [{'kind': rng.choice(KINDS_READ if calls[c][0] == 'r' else KINDS_WRITE), 'at': c, 'where': 'call'}
+                         for c in idxs]
+        case['configs'] = engine_configs(rng)[:4]
+        case['model_cap'] = realprog.MAX_OPS
+        return case
     if index % 16 == 3:
         return gen_sigint(rng, index, tier, native=False)
     for _ in range(6):
@@ -409,7 +427,8 @@ def run(case):
     C.write_image(case, path)
     # fault-free baseline first: a disagreement here is C01/C07's matter
     base = dict(case, fault=None)
-    bv, info = enginesim.evaluate(base, FIELDS, path=path)
+    cap = case.get('model_cap', enginesim.MODEL_CAP)
+    bv, info = enginesim.evaluate(base, FIELDS, path=path, model_cap=cap)
     exp0 = next(iter(info['expected'].values()))
     m0 = info['model']
     probes = {f: 1 for f in B.probe_flags(case, m0, exp0)}
@@ -421,7 +440,7 @@ def run(case):
     evals = 0
     for plan in case['plans']:
         c2 = dict(case, fault=plan)
-        vs, info = enginesim.evaluate(c2, FIELDS, path=path, stop_at_first=False)
+        vs, info = enginesim.evaluate(c2, FIELDS, path=path, stop_at_first=False, model_cap=cap)
         steps += info['steps']
         exp = next(iter(info['expected'].values()))
         fired = any(e[0] == 'fault' for e in exp['log'])
@@ -473,7 +492,8 @@ def minimise(case, violation):
             c['fire_calls'] = case['fire_calls'][:1]
         return c, violation
     c = _single(case, violation)
-    mc, mv = enginesim.minimise(c, violation, FIELDS)
+    mc, mv = enginesim.minimise(c, violation, FIELDS, model_cap=case.get('model_cap', enginesim.MODEL_CAP),
+                                budget=120 if case.get('model_cap') else 400)
     mv = dict(mv, fault=mc.get('fault'))
     mc['plans'] = [mc['fault']] if mc.get('fault') else []
     return mc, mv
